@@ -359,7 +359,7 @@ type goTask struct {
 	kinds  []string
 	sub    int64
 	hasSub bool
-	exact  bool // literal assigned once (no append on top)
+	exact  bool     // literal assigned once (no append on top)
 	names  []string // the variable an element is read from, when it is one
 }
 
